@@ -31,6 +31,8 @@
                                                            Encrypt/Decrypt in place, 2/3 into buf2[doff:doff+n]
             (9 name key iv seed1 len1 ((k off n spare) ...))   the same in place with a factory-made cipher
             (10 name key iv seed nmsgs)                    one instance, Encrypt and Decrypt on two goroutines
+            (12 seed nmsgs)                                every factory name on its own goroutine with its own
+                                                           instances, all at once; observed (panicked (bad_i ...))
             (11 ctor key iv seed len)                      an exported constructor called directly (aes, 3des, sm4,
                                                            twofish, xtea, salsa20, none); observed as for 5
    observed = (panicked (out ...))        for 0
@@ -360,5 +362,8 @@ Definition check (c : sx) : verdict :=
            SList [SInt panicked; SInt be; SInt bd; SList _]] =>
       if Z.eqb panicked 1 then VPropFail 7
       else check_that (Z.eqb be 0 && Z.eqb bd 0) (VPropFail 9)
+  | SList [SList [SInt 12%Z; SInt _; SInt _]; SList [SInt panicked; SList bad]] =>
+      if Z.eqb panicked 1 then VPropFail 7
+      else check_that (forallb (fun b => match b with SInt 0%Z => true | _ => false end) bad) (VPropFail 10)
   | _ => VBad
   end.
